@@ -17,7 +17,7 @@ PROPS = {
         "technique": "Lean 4 proof (induction over writer programs and record lists) + differential correspondence model/Go on byte-exact file images",
         "level": "proof",
         "design_ref": "§5 C04",
-        "text": "Theorems over the Lean model of the V4 format, writer state machine, sequential/mmap readers for ALL record lists, compressors (any lawful one) and writer programs with seeks to record boundaries: closed file = header ++ survivors, sequential read = survivors then EOF, ReadNextAt(offset_k) = record k, skip = read-and-discard, zero tail = EOF. The model is the same code the driver executable runs; it is tied to the Go code on every run by byte-exact comparison of written files, returned offsets and every reader result (incl. SeekNext from every offset of small files) on generated programs.",
+        "text": "Theorems over the Lean model of the V4 format, writer state machine, sequential/mmap readers for ALL record lists, compressors (any lawful one) and writer programs with seeks to record boundaries: closed file = header ++ survivors, sequential read = survivors then EOF, ReadNextAt(offset_k) = record k, skip = read-and-discard, zero tail = EOF. The model is the same code the driver executable runs; it is tied to the Go code on every run by byte-exact comparison of written files, returned offsets and every reader result (incl. SeekNext from every offset of small files) on generated programs. EXTENSIONS: C04_Direct (the direct-I/O writer path with the aligned buffered writer: direct_close_exact = header ++ records ++ zero padding to the block size, direct_seq_roundtrip, direct_readAt_offset, direct_writesync_rejected, direct_close_exact_seeks, and the finding direct_seek_breaks_alignment).",
         "note": "Trusted: Lean kernel, the three standard axioms, harness + generators; compressors, buffered reader, mmap, OS modelled as parameters. SeekNext is tied by correspondence and an implementation oracle (spec theorem pending); the format cannot distinguish a payload that embeds a complete valid record (known finding).",
         "trusted_base": COMMON_TB + [RIO_MODELLED],
         "assumptions": [RIO_MODELLED, "record sizes fit 64-bit header fields", "seeks go back to record boundaries (what the property states)"],
@@ -30,7 +30,7 @@ PROPS = {
         "technique": "Lean 4 proof (descent invariant of findGreaterOrEqual; binary-heap order invariant + multiset bookkeeping) + differential correspondence model/Go",
         "level": "proof",
         "design_ref": "§5 C16",
-        "text": "Theorems for ALL insertion orders of distinct keys, ALL node heights >= 1 and ANY consistent comparator: the skip list's size/Get/Contains/Iterator/IteratorStartingAt/IteratorBetween equal the sorted map's answers (lower > upper rejected, duplicate insert refused); for ANY number of non-descending inputs the heap (upHeap/downHeap/Next as coded, slot 0 unused) returns a permutation of all (key,value,input) triples in non-descending key order and keeps each input's order. Tied to the Go code by running the same insertion sequences / input lists through both (all permutations of up to 5 (quick) / 7 (thorough) keys, random beyond; int, string and byte comparators; every probe and bound pair).",
+        "text": "Theorems for ALL insertion orders of distinct keys, ALL node heights >= 1 and ANY consistent comparator: the skip list's size/Get/Contains/Iterator/IteratorStartingAt/IteratorBetween equal the sorted map's answers (lower > upper rejected, duplicate insert refused); for ANY number of non-descending inputs the heap (upHeap/downHeap/Next as coded, slot 0 unused) returns a permutation of all (key,value,input) triples in non-descending key order and keeps each input's order. Tied to the Go code by running the same insertion sequences / input lists through both (all permutations of up to 5 (quick) / 7 (thorough) keys, random beyond; int, string and byte comparators; every probe and bound pair). EXTENSIONS: C16_Ptr: a POINTER-LEVEL model of the skip list (arena of nodes with per-level next pointers, findGreaterOrEqual with prevTable, Insert\'s pointer surgery, iterators as coded) refines the height-list model and hence the sorted map (findGE_refines, insert_refines, skiplist_ptr_refines, skiplist_ptr_sorted_map, insert_duplicate_panics).",
         "note": "Trusted: Lean kernel, three standard axioms, harness. Modelled: the skip list is represented by its level-0 order with explicit heights (next node at level l = next node of height > l); pointer surgery of Insert is therefore tied only by the correspondence run, the descent and the iterators are as coded. math/rand heights are a parameter (quantified).",
         "trusted_base": COMMON_TB + ["modelled, not verified: Go pointer manipulation inside skiplist.Insert (abstracted to a height-annotated ordered list), math/rand"],
         "assumptions": ["comparator is a consistent total preorder (LawfulCmp)", "inputs of the queue are non-descending"],
@@ -42,7 +42,7 @@ PROPS = {
         "technique": "Lean 4 proof (prefix lemma for every cut length; CRC-32C single-byte law via a kernel-checked 256-entry table fact) + differential correspondence on damaged files",
         "level": "proof",
         "design_ref": "§5 C12",
-        "text": "Theorems for ALL record lists, compressors and cut lengths n: a file cut at n reads (sequentially and at every recorded offset) as exactly the records wholly inside the first n bytes, then EOF/error; CRC-32C changes under every single-byte change; every frame-preserving alteration of any header byte makes both readers fail on that record (partial: continuation-bit flips move the frame and are covered by the correspondence run + oracle only); unsupported file-header versions/compression codes are rejected. The correspondence run reads every truncation and header alteration (all 255 values on short files in the thorough tier) with both real readers and the model and evaluates the property oracle on the real results.",
+        "text": "Theorems for ALL record lists, compressors and cut lengths n: a file cut at n reads (sequentially and at every recorded offset) as exactly the records wholly inside the first n bytes, then EOF/error; CRC-32C changes under every single-byte change; every frame-preserving alteration of any header byte makes both readers fail on that record (partial: continuation-bit flips move the frame and are covered by the correspondence run + oracle only); unsupported file-header versions/compression codes are rejected. The correspondence run reads every truncation and header alteration (all 255 values on short files in the thorough tier) with both real readers and the model and evaluates the property oracle on the real results. EXTENSIONS: C12_Shift states the header clause at full strength with an explicit residual: header_alter_detected_or_coincides (ANY alteration of ANY header byte makes both readers fail OR the alteration is frame-shifting and the altered stream begins with a correctly checksummed, canonically encoded header over different bytes = a genuine 32-bit CRC coincidence).",
         "note": "Trusted: Lean kernel, three standard axioms, harness. The frame-shifting residual (a crafted payload that embeds the CRC of the shifted header) is a 32-bit coincidence by format design; not reachable by the generators, would be reported with its input if hit.",
         "trusted_base": COMMON_TB + [RIO_MODELLED],
         "assumptions": [RIO_MODELLED, "record sizes fit 64-bit header fields"],
@@ -55,7 +55,7 @@ PROPS = {
         "technique": "Lean 4 proof (refinement of the layer model to a map by induction over arbitrary step lists: programs x schedules x configurations) + differential correspondence on real SimpleDB sessions",
         "level": "proof",
         "design_ref": "§5 C01",
-        "text": "MAIN THEOREM db_refines_map: for EVERY list of steps (client Put/Delete/Get/Close/re-Open through both API flavours, valid and rejected, interleaved with ANY placement of rotations, flush completions and compaction cycles, ANY table sizes fed to the selection and ANY options per session) every client call of the Lean model of simpledb returns what the reference map returns; plus get_refines, reads_stable, reads_stable_close_reopen and gens_ok (table numbers stay strictly increasing, so name order = stacking order after a restart). The model (memstore pair, table stack, GetBytes read path incl. the empty-value rule, size/ratio selection + floodFill as coded, reducer choice, reflectCompactionResult, generation counter) runs in the driver and is compared on every run with real sessions: every key read after every step, selected tables and live table names of every compaction cycle.",
+        "text": "MAIN THEOREM db_refines_map: for EVERY list of steps (client Put/Delete/Get/Close/re-Open through both API flavours, valid and rejected, interleaved with ANY placement of rotations, flush completions and compaction cycles, ANY table sizes fed to the selection and ANY options per session) every client call of the Lean model of simpledb returns what the reference map returns; plus get_refines, reads_stable, reads_stable_close_reopen and gens_ok (table numbers stay strictly increasing, so name order = stacking order after a restart). The model (memstore pair, table stack, GetBytes read path incl. the empty-value rule, size/ratio selection + floodFill as coded, reducer choice, reflectCompactionResult, generation counter) runs in the driver and is compared on every run with real sessions: every key read after every step, selected tables and live table names of every compaction cycle. EXTENSIONS: Props/C01_Stack.lean composes the byte-level layers: the concrete stack (C14 memstores, byte-level tables written by the SstW model and read by the slice-loader reader, C08 merger with the reducer simpledb chooses) refines the layer model and hence the map for ALL step lists (stack_refines_layers, stack_refines_map), and no flush/compaction/re-open step fails (stack_no_step_fails); stream stack compares the three files of every live table with the model after every flush/compaction/re-open.",
         "note": "Trusted: Lean kernel, three standard axioms, harness. " + "modelled, not verified: the byte-level tables, merge heap, skip list, memstore and WAL are represented by their abstract layers (their own refinement theorems are C03/C08/C14/C16/C07); float32 arithmetic of the size estimate and tombstone ratio (rotation points and table sizes are inputs, quantified in the theorems); Go scheduler (sequential client; concurrency is C05)" + " 'no flush or compaction cycle fails' is covered by the correspondence run (any failure/panic is a violation), not by a theorem.",
         "trusted_base": COMMON_TB + ["modelled, not verified: the byte-level tables, merge heap, skip list, memstore and WAL are represented by their abstract layers (their own refinement theorems are C03/C08/C14/C16/C07); float32 arithmetic of the size estimate and tombstone ratio (rotation points and table sizes are inputs, quantified in the theorems); Go scheduler (sequential client; concurrency is C05)"],
         "assumptions": ["modelled, not verified: the byte-level tables, merge heap, skip list, memstore and WAL are represented by their abstract layers (their own refinement theorems are C03/C08/C14/C16/C07); float32 arithmetic of the size estimate and tombstone ratio (rotation points and table sizes are inputs, quantified in the theorems); Go scheduler (sequential client; concurrency is C05)"],
@@ -81,7 +81,7 @@ PROPS = {
         "technique": "Lean 4 proof (case analysis of every step: rejected calls leave the state unchanged; flavour equality; read stability) + differential correspondence mixing rejected/accepted calls through both flavours",
         "level": "proof",
         "design_ref": "§5 C17",
-        "text": "api_flavours_agree (Put = PutBytes, Delete = DeleteBytes on the same bytes), empty_or_nil_rejected, rejected_call_no_effect (any step whose result is an error leaves memstores, tables, generation and flags exactly unchanged), reads_stable_across_flush / _across_restart. The crash-recovery observation point of this property is decided with the crash-image machinery of C02 (stream crash, flavour reject).",
+        "text": "api_flavours_agree (Put = PutBytes, Delete = DeleteBytes on the same bytes), empty_or_nil_rejected, rejected_call_no_effect (any step whose result is an error leaves memstores, tables, generation and flags exactly unchanged), reads_stable_across_flush / _across_restart. The crash-recovery observation point of this property is decided with the crash-image machinery of C02 (stream crash, flavour reject). EXTENSIONS: C17_Order (put_validates_before_logging, string_api_validates_then_delegates, state_checks_before_logging: regenerated from the source).",
         "note": "Trusted as C01; the 'after a crash followed by recovery' part rests on the C02 machinery (abstract file system model + real crash images).",
         "trusted_base": COMMON_TB + ["modelled, not verified: the byte-level tables, merge heap, skip list, memstore and WAL are represented by their abstract layers (their own refinement theorems are C03/C08/C14/C16/C07); float32 arithmetic of the size estimate and tombstone ratio (rotation points and table sizes are inputs, quantified in the theorems); Go scheduler (sequential client; concurrency is C05)"],
         "assumptions": ["modelled, not verified: the byte-level tables, merge heap, skip list, memstore and WAL are represented by their abstract layers (their own refinement theorems are C03/C08/C14/C16/C07); float32 arithmetic of the size estimate and tombstone ratio (rotation points and table sizes are inputs, quantified in the theorems); Go scheduler (sequential client; concurrency is C05)"],
@@ -118,7 +118,7 @@ PROPS = {
         "technique": "Lean 4 proof (heap over fallible iterators simulated by the C16 heap; an input with a pending error never leaves the heap, so Done is unreachable; writer call accounting) + fault-injection correspondence (exhaustive single faults, sampled double faults) on the real merger",
         "level": "proof",
         "design_ref": "§5 C11",
-        "text": "Merger half: for ALL input sets, every failing Next position of every input and every set of failing WriteNext calls, Merge and MergeCompact (any reduce function) return an error whenever a reachable read fault or a write fault among the performed writes exists; if they return nil the writer received exactly the complete merge (resp. its compaction), one call per record; no I/O error is invented without a fault. The fallible heap coincides with the C16 heap when nothing fails. Tied to the Go code by wrapping real table iterators and the real stream writer with failing ones and comparing error kind, WriteNext count and accepted records with the model; oracle: a hit fault must yield a non-nil error, nil error must come with the reference output.",
+        "text": "Merger half: for ALL input sets, every failing Next position of every input and every set of failing WriteNext calls, Merge and MergeCompact (any reduce function) return an error whenever a reachable read fault or a write fault among the performed writes exists; if they return nil the writer received exactly the complete merge (resp. its compaction), one call per record; no I/O error is invented without a fault. The fallible heap coincides with the C16 heap when nothing fails. Tied to the Go code by wrapping real table iterators and the real stream writer with failing ones and comparing error kind, WriteNext count and accepted records with the model; oracle: a hit fault must yield a non-nil error, nil error must come with the reference output. EXTENSIONS: C11_Stack proves the system-level half on the composed byte-level model: flush_fault_reported, compaction_fault_not_installed (any consumed read fault, any WriteNext fault, any Close fault => the cycle returns an error and the live tables and every read are unchanged), *_success_complete, fault_free_is_existing_step.",
         "note": "PARTIAL with respect to the whole property: the system-level half (a failing write inside flush/compaction/Close is reported and an incomplete output is never installed) is exercised by fault injection through the writer hook (streams sst / dbfault), not by a theorem.",
         "trusted_base": COMMON_TB + ["modelled, not verified at this layer: input iterators as (items, failing call) and the stream writer as an abstract WriteNext whose I/O fault precedes the ordering check"],
         "assumptions": ["comparator is skiplist.BytesComparator", "an iterator is not called again after it returned a non-Done error (true for Merge/MergeCompact)"],
@@ -213,7 +213,7 @@ PROPS = {
         "technique": "Lean 4 proof (appender invariant + admissible-event/crash-image invariant over every event prefix; truncation lemma of C12; buffered-writer transparency) + differential correspondence model/Go on byte-exact WAL files, per-operation on-disk sizes, every byte-level cut of every file, and real system-call-boundary images (strace)",
         "level": "proof",
         "design_ref": "§5 C07",
-        "text": "Theorems for ALL max sizes, buffer sizes, lawful compressors and programs of Append/AppendSync/Rotate (nil, empty, larger-than-limit and larger-than-buffer records): replay (dirOf prog) = the appended records in order (replay_eq_appends, million_guard); the events of AppendSync r end with the record's bytes written and an fsync of its file before it returns (sync_is_durable); for EVERY prefix of the file-system event list (incl. during Close) replay succeeds and returns a prefix of the appended records containing every record whose AppendSync had returned (replay_after_crash, crash_image_shape); the vendored buffered writer is transparent for every buffer size and write/flush sequence (bufw_transparent, bufw_flush_boundaries, bufw_aligned). Tied on every run: byte-exact WAL files and sizes after every operation, replay before/after Close, every byte-level cut of the last file read by the real replayer, and (stream crash, flavour wal) the image at every real system-call boundary of a traced appender process compared with the model's event list.",
+        "text": "Theorems for ALL max sizes, buffer sizes, lawful compressors and programs of Append/AppendSync/Rotate (nil, empty, larger-than-limit and larger-than-buffer records): replay (dirOf prog) = the appended records in order (replay_eq_appends, million_guard); the events of AppendSync r end with the record's bytes written and an fsync of its file before it returns (sync_is_durable); for EVERY prefix of the file-system event list (incl. during Close) replay succeeds and returns a prefix of the appended records containing every record whose AppendSync had returned (replay_after_crash, crash_image_shape); the vendored buffered writer is transparent for every buffer size and write/flush sequence (bufw_transparent, bufw_flush_boundaries, bufw_aligned). Tied on every run: byte-exact WAL files and sizes after every operation, replay before/after Close, every byte-level cut of the last file read by the real replayer, and (stream crash, flavour wal) the image at every real system-call boundary of a traced appender process compared with the model's event list. EXTENSIONS: C07_Order (regenerated call order: sync_append_flushes_then_fsyncs, rotate_closes_before_creating_next, replay_closes_each_file, replay_files_in_name_order, model_order_matches_source).",
         "note": "Trusted: Lean kernel, three standard axioms, harness, strace. The OS has no resource limits in the model (descriptor exhaustion was a real defect, fixed: 17d987b). The one-million-files guard is proved on the model only.",
         "trusted_base": COMMON_TB + [RIO_MODELLED, "strace and the image replayer of the crash stream (kill-9 model: a completed system call is retained, each call is atomic)"],
         "assumptions": ["compressors lawful (dec (enc x) = some x)", "record sizes fit 64-bit header fields", "flat WAL directory written only by the appender", "OS resources (descriptors, memory) unbounded in the model"],
@@ -261,7 +261,7 @@ PROPS = {
         "technique": "Lean 4 proof (invariant over every prefix of the file-system event sequence of every session of the abstract-disk model; recovery as a pure function) + real crash images at every system-call boundary (strace) re-opened by the real code and compared with the model's recover",
         "level": "proof",
         "design_ref": "§5 C02",
-        "text": "crash_safe_sync: for EVERY step list (client ops, rotations, flushes, compaction cycles, close, re-open) and EVERY prefix n of its file-system event sequence, the disk image satisfies DiskOk, recover succeeds and the recovered map equals the reference after the acknowledged ops, or after those plus the one in flight; crash_safe_sync_after_recovery (composes across crash/reopen cycles); recover_total (DiskOk d -> recover d succeeds with abs = logical d); rejected_call_no_disk_effect. Tie: sessions of the real DB traced with strace, the directory image rebuilt at EVERY mutating system call of any thread, each image re-opened by the real Open in a child process: Open must succeed, every acknowledged op present, in-flight op present-or-absent, one forced compaction cycle after recovery must succeed and change no read; each distinct image is abstracted (tables loaded by the real reader, WAL files decoded, flags decoded) and compared with the model's fs.recover.",
+        "text": "crash_safe_sync: for EVERY step list (client ops, rotations, flushes, compaction cycles, close, re-open) and EVERY prefix n of its file-system event sequence, the disk image satisfies DiskOk, recover succeeds and the recovered map equals the reference after the acknowledged ops, or after those plus the one in flight; crash_safe_sync_after_recovery (composes across crash/reopen cycles); recover_total (DiskOk d -> recover d succeeds with abs = logical d); rejected_call_no_disk_effect. Tie: sessions of the real DB traced with strace, the directory image rebuilt at EVERY mutating system call of any thread, each image re-opened by the real Open in a child process: Open must succeed, every acknowledged op present, in-flight op present-or-absent, one forced compaction cycle after recovery must succeed and change no read; each distinct image is abstracted (tables loaded by the real reader, WAL files decoded, flags decoded) and compared with the model's fs.recover. EXTENSIONS: C02_Interleave (crash_safe_sync_interleaved: every prefix of EVERY admissible interleaving of client thread, flusher and compactor under the lock/hand-off constraints as coded), C02_Order (the order of file-system-relevant actions REGENERATED from the source by tools/orderfacts satisfies the order constraints the model relies on and equals the model\'s event order: flag_after_table_closed, meta_written_last, wal_removed_after_table_complete, model_order_matches_source, ... by decide over the regenerated table), C02_Wal (the byte-level WAL of C07 refines the abstract WAL files: replay_refines_abstract, appender_events_refine, sync_log_durable).",
         "note": "Trusted: Lean kernel, three standard axioms, harness, strace. " + "modelled, not verified: the operating system and file system (kill-9 model: a completed system call is retained, each system call is atomic, rename is atomic, no power loss); table directories, WAL files and compaction directories as abstract objects (partial / complete with content); flusher and compactor steps at operation boundaries in the model (finer interleavings are sampled by the real traces); strace and the image replayer of the crash stream",
         "trusted_base": COMMON_TB + ["modelled, not verified: the operating system and file system (kill-9 model: a completed system call is retained, each system call is atomic, rename is atomic, no power loss); table directories, WAL files and compaction directories as abstract objects (partial / complete with content); flusher and compactor steps at operation boundaries in the model (finer interleavings are sampled by the real traces); strace and the image replayer of the crash stream"],
         "assumptions": ["modelled, not verified: the operating system and file system (kill-9 model: a completed system call is retained, each system call is atomic, rename is atomic, no power loss); table directories, WAL files and compaction directories as abstract objects (partial / complete with content); flusher and compactor steps at operation boundaries in the model (finer interleavings are sampled by the real traces); strace and the image replayer of the crash stream"],
@@ -273,7 +273,7 @@ PROPS = {
         "technique": "Lean 4 proof (recovery as an event sequence; every prefix leaves a DiskOk disk with the same logical content; induction over interrupted attempts) + nested real crash images (recovery itself traced and interrupted at every system call, unlink orders permuted)",
         "level": "proof",
         "design_ref": "§5 C10",
-        "text": "recover_events_sound (the event sequence of Open produces exactly the disk recover computes); recover_idempotent_under_crash (for EVERY DiskOk disk and EVERY prefix m of recovery's events: the disk is DiskOk, recovers, same content; every unlink order of a directory removal is covered because every intermediate state is 'partial'); recover_after_interruptions (any number of interrupted attempts = none). Tie: depth-2 images from real traces of the recovery of real depth-1 images, other directory-listing orders emulated by permuting unlink runs; each must re-open with the content of the uninterrupted recovery.",
+        "text": "recover_events_sound (the event sequence of Open produces exactly the disk recover computes); recover_idempotent_under_crash (for EVERY DiskOk disk and EVERY prefix m of recovery's events: the disk is DiskOk, recovers, same content; every unlink order of a directory removal is covered because every intermediate state is 'partial'); recover_after_interruptions (any number of interrupted attempts = none). Tie: depth-2 images from real traces of the recovery of real depth-1 images, other directory-listing orders emulated by permuting unlink runs; each must re-open with the content of the uninterrupted recovery. EXTENSIONS: C10_Order (regenerated call order of recovery: recovery_phases_in_order, repair_/reflect_deletes_before_rename, wal_files_removed_oldest_first, unfinished_table_index_removed_first, empty_metadata_checked_before_load, model_recovery_order_matches_source).",
         "note": "Depth 3 is not run. Trusted as C02.",
         "trusted_base": COMMON_TB + ["modelled, not verified: the operating system and file system (kill-9 model: a completed system call is retained, each system call is atomic, rename is atomic, no power loss); table directories, WAL files and compaction directories as abstract objects (partial / complete with content); flusher and compactor steps at operation boundaries in the model (finer interleavings are sampled by the real traces); strace and the image replayer of the crash stream"],
         "assumptions": ["modelled, not verified: the operating system and file system (kill-9 model: a completed system call is retained, each system call is atomic, rename is atomic, no power loss); table directories, WAL files and compaction directories as abstract objects (partial / complete with content); flusher and compactor steps at operation boundaries in the model (finer interleavings are sampled by the real traces); strace and the image replayer of the crash stream"],
@@ -285,7 +285,7 @@ PROPS = {
         "technique": "Lean 4 proof (volatile queue of unwritten log records; file content = prefix of the issued records at every event prefix; rotation drains the queue) + real crash images of async sessions incl. > 4 MiB logs",
         "level": "proof",
         "design_ref": "§5 C13",
-        "text": "async_crash_prefix: for every session with the asynchronous WAL, every buffer-flush schedule and every event prefix, recovery succeeds and the recovered map equals the reference after SOME prefix p of the issued mutations with rotMark <= p (every op acknowledged before the last completed rotation is included; no holes, no reordering); issued_is_reference; async_crash_prefix_after_recovery. Tie: traced async sessions (values > the 4 MiB WAL buffer so that buffer flushes cut records), every image re-opened by the real code and checked against the prefix oracle.",
+        "text": "async_crash_prefix: for every session with the asynchronous WAL, every buffer-flush schedule and every event prefix, recovery succeeds and the recovered map equals the reference after SOME prefix p of the issued mutations with rotMark <= p (every op acknowledged before the last completed rotation is included; no holes, no reordering); issued_is_reference; async_crash_prefix_after_recovery. Tie: traced async sessions (values > the 4 MiB WAL buffer so that buffer flushes cut records), every image re-opened by the real code and checked against the prefix oracle. EXTENSIONS: C13_Interleave (async_crash_prefix_interleaved over every admissible interleaving), C13_Order (put_logs_before_memstore, put_memstore_before_rotate, rotate_before_handoff, model_order_matches_source), C13_Wal (async_log_prefix, disk_plus_buffer: the on-disk bytes followed by the appender\'s buffer are the logical log).",
         "note": "Trusted as C02.",
         "trusted_base": COMMON_TB + ["modelled, not verified: the operating system and file system (kill-9 model: a completed system call is retained, each system call is atomic, rename is atomic, no power loss); table directories, WAL files and compaction directories as abstract objects (partial / complete with content); flusher and compactor steps at operation boundaries in the model (finer interleavings are sampled by the real traces); strace and the image replayer of the crash stream"],
         "assumptions": ["modelled, not verified: the operating system and file system (kill-9 model: a completed system call is retained, each system call is atomic, rename is atomic, no power loss); table directories, WAL files and compaction directories as abstract objects (partial / complete with content); flusher and compactor steps at operation boundaries in the model (finer interleavings are sampled by the real traces); strace and the image replayer of the crash stream"],
